@@ -15,3 +15,6 @@ mod include;
 pub use include::*;
 
 pub mod tokens;
+
+#[cfg(rssl_verif)]
+pub mod verif;
